@@ -1,6 +1,7 @@
 package refl
 
 import (
+	"sort"
 	"regexp"
 	"fmt"
 	"go/ast"
@@ -449,6 +450,21 @@ func (c *canon) switchStmt(s ast.Stmt) string {
 		}
 		arms = append(arms, lbl+": "+c.stmts(cc.Body))
 	}
+	// the cases of a type switch over concrete types exclude each other: their order carries no meaning
+	if ts, ok := s.(*ast.TypeSwitchStmt); ok {
+		concrete := true
+		for _, cs := range ts.Body.List {
+			for _, e := range cs.(*ast.CaseClause).List {
+				tv, ok := c.info.Types[e]
+				if !ok || !tv.IsType() || types.IsInterface(tv.Type) {
+					concrete = false
+				}
+			}
+		}
+		if concrete {
+			sortArms(arms)
+		}
+	}
 	return head + " {" + strings.Join(arms, " | ") + "}"
 }
 
@@ -472,4 +488,15 @@ func qualExpr(info *types.Info, e ast.Expr) string {
 		}
 	}
 	return out
+}
+
+// sortArms orders switch arms canonically: by text, the default arm last.
+func sortArms(arms []string) {
+	sort.SliceStable(arms, func(i, j int) bool {
+		di, dj := strings.HasPrefix(arms[i], "default:"), strings.HasPrefix(arms[j], "default:")
+		if di != dj {
+			return dj
+		}
+		return arms[i] < arms[j]
+	})
 }
